@@ -3,7 +3,8 @@
 # J scratch worktrees of /repo HEAD are made under $SCRATCH (default /tmp), each takes whole properties
 # (so evidence files never collide), applies seeded/<id>/patch.diff, runs the property's quick check
 # with VERIF_REPO pointing at the worktree, undoes the patch.  Worktrees are removed at the end.
-# usage: bin/seeded_par.sh [J] [Cxx ...]     output: one line per seeded change, sorted
+# usage: [SEEDED_FILTER=regex] bin/seeded_par.sh [J] [Cxx ...]     output: one line per seeded change, sorted
+# (SEEDED_FILTER e.g. '-1[3-5]$' = round 5 only)
 cd "$(dirname "$0")/.." || exit 2
 J="${1:-6}"; shift
 props=("$@"); [ ${#props[@]} -eq 0 ] && props=($(ls seeded | grep -o '^C[0-9]*' | sort -u))
@@ -15,7 +16,7 @@ worker() {
   i=0
   for pid in "${props[@]}"; do
     i=$((i+1)); [ $(( (i-1) % J )) -eq "$w" ] || continue
-    for s in $(ls seeded | grep "^$pid-"); do
+    for s in $(ls seeded | grep "^$pid-" | grep -E "${SEEDED_FILTER:-.}"); do
       [ -f "seeded/$s/patch.diff" ] || continue
       if ! git -C "$wt" apply --check "$PWD/seeded/$s/patch.diff" 2>/dev/null; then echo "$s: patch does not apply to HEAD" >> "$out/$w"; continue; fi
       git -C "$wt" apply "$PWD/seeded/$s/patch.diff"
